@@ -5,7 +5,7 @@
     with sign-extension padding -- is [encode_e] of some evalue that erases to the value. *)
 From Coq Require Import List NArith ZArith.
 Require Import Base Schema Varint Utf8 Reader Target De AvroValue Encoding Denote Wf DeProofs.
-Require Import DeSafetyProofs DeSoundBase DeSoundMain DeSoundReject DeSoundProofs.
+Require Import DeSafetyProofs DeSoundBase DeSoundMain DeSoundReject DeSoundProofs DeSoundTyped.
 Import ListNotations.
 
 (* for the dynamically-typed consumer in slice mode: exactly the encoding is consumed (whatever
@@ -113,3 +113,22 @@ Check C03_sound_needs_byte_input.
 
 (* non-vacuity: a two-block array of maps containing a union and a decimal *)
 Check de_any_complete_bounded_instance.
+
+(** ** Typed targets through collections (proofs/DeSoundTyped.v) *)
+(* soundness for the statically typed target derived from the schema ([typed_target], the shape a Rust type
+   mirroring the schema asks for), arrays / maps / records / unions included, wherever the unfolding covers the
+   node ([tcov]): whatever is decoded is the typed presentation of a conforming value whose (relaxed: block
+   structure free) encoding is exactly the consumed bytes *)
+Theorem C03_typed_sound : forall (Sc : fschema) (cfg : dcfg) (fuel tf : nat) (n : fnode) (depth : nat) (rs : rstate) (d : dval) (rs' : rstate),
+  tcov Sc tf n -> bytes_okb (rd_inp rs) = true ->
+  de Sc cfg fuel n depth false false (typed_target Sc tf n) rs = (Ok d, rs') ->
+  exists (v : avalue) (pre : list N),
+    rd_inp rs = pre ++ rd_inp rs' /\
+    conforms Sc n v = true /\ erase_borrow d = dval_typed Sc n v /\ DeSoundMain.valid_enc_relaxed Sc n v pre.
+Proof. exact de_typed_sound_coll. Qed.
+Theorem C03_typed_sound_datum : forall (fuel : nat) (Sc : fschema) (cfg : dcfg) (tf : nat) (root : fnode) (rs : rstate) (d : dval) (left : N),
+  fnode_at Sc 0 = Some root -> tcov Sc tf root -> bytes_okb (rd_inp rs) = true ->
+  de_datum fuel Sc cfg (typed_target Sc tf root) rs = Ok (d, left) ->
+  exists v : avalue, conforms Sc root v = true /\ erase_borrow d = dval_typed Sc root v.
+Proof. exact de_typed_sound_coll_datum. Qed.
+Check typed_coll_example.
